@@ -1464,6 +1464,41 @@ pub fn gen_pitch_bend_pattern(r: &mut Rng, ch: u8, kind: usize) -> History {
     History { channel_arg: ch, ops: e.ops }
 }
 
+/// other channels' messages with real-time bytes inside them, right after a controller / pitch-bend message on the
+/// listened channel has left the receiver in running-status state: none of their data bytes may be taken for ours
+pub fn gen_foreign_with_realtime(r: &mut Rng) -> History {
+    let channel_arg = r.below(16) as u8;
+    let ch = channel_arg;
+    let mut e = Emit::new();
+    preset_controllers(&mut e, ch, r);
+    for _ in 0..(6 + r.below(20)) {
+        // our own message first (explicit or running status)
+        match r.below(4) {
+            0 => e.msg(0xB0 | ch, &[*r.pick(&[1u8, 5, 7, 64, 65, 71, 74]), r.below(128) as u8], r.chance(0.3)),
+            1 => e.msg(0xE0 | ch, &[r.below(128) as u8, r.below(128) as u8], r.chance(0.3)),
+            2 => e.msg(0x90 | ch, &[60 + r.below(6) as u8, r.below(128) as u8], false),
+            _ => {}
+        }
+        // then one to three messages for another channel, real-time bytes after the status byte / between data bytes
+        let other = (ch + 1 + r.below(15) as u8) % 16;
+        for _ in 0..1 + r.below(3) {
+            let status = *r.pick(&[0xB0u8, 0xE0, 0x90, 0x80, 0xA0, 0xC0, 0xD0]) | other;
+            let n_data = if status & 0xF0 == 0xC0 || status & 0xF0 == 0xD0 { 1 } else { 2 };
+            if !r.chance(0.2) {
+                e.raw(status);
+            }
+            for _ in 0..n_data {
+                while r.chance(0.4) {
+                    e.raw(*r.pick(&RT));
+                }
+                e.raw(*r.pick(&[0u8, 1, 7, 64, 127, 100, 60, 74]));
+            }
+        }
+    }
+    e.msg(0xB0 | ch, &[7, 99], false);
+    History { channel_arg, ops: e.ops }
+}
+
 /// mode setters dropped between arbitrary bytes of a history (also inside a message or a running-status run); every
 /// one really changes the mode. Framing and every controller output must be unaffected by them
 pub fn sprinkle_mode_setters(r: &mut Rng, ops: &mut Vec<Op>, p: f64) {
@@ -1789,6 +1824,9 @@ pub fn run(ctx: &Ctx, prop: &str) -> Report {
                         // output may follow them, nor may they change what a later controller reset restores
                         rep.count("midi.c18.sysex_histories", 1);
                         gen_sysex(&mut r)
+                    } else if j % 7 == 5 {
+                        rep.count("midi.c18.foreign_messages_with_realtime_inside", 1);
+                        gen_foreign_with_realtime(&mut r)
                     } else if j % 7 == 3 {
                         // controllers while the note buffer fills up and overruns (they must not care)
                         let mut h = if r.chance(0.5) { gen_notes_x(&mut r, 200, 0.0, false, true) } else { gen_full_buffer(&mut r, false) };
